@@ -93,15 +93,32 @@ def generate(seed, tier):
             continue
         pool.append(src)
     n_gen = rng.choice([0, 2, 4, 8, 12])
+    n_corpus = len(pool)
     for _ in range(n_gen):
         pool.append(_generated_source(srng))
-    # focus keys recur across processes and positions
+    # focus keys recur across processes and positions; half of them are generated
+    # programs (which share struct / function / global names among each other)
     n_focus = rng.randint(3, 8)
-    focus = [(rng.randrange(len(pool)), rng.randrange(4)) for _ in range(n_focus)]
+    focus = [((rng.randrange(n_corpus, len(pool)) if (n_gen and rng.random() < 0.5) else rng.randrange(len(pool))),
+              rng.randrange(4)) for _ in range(n_focus)]
     # the same source under other options (a result cached per source, ignoring the
     # options, shows only when both keys occur in both orders)
     for i, o in list(focus[: rng.randint(1, 3)]):
         focus.append((i, (o + rng.randint(1, 3)) % 4))
+    # name-collision clusters: sources that define a struct / global / function of the
+    # same name (state keyed by a *name* that survives a compilation shows only when
+    # two such sources meet in one process, in both orders)
+    import re
+
+    by_name = {}
+    for i, src in enumerate(pool):
+        for nm in set(re.findall(r"struct\s+(\w+)\s*\{", src)):
+            by_name.setdefault("struct " + nm, []).append(i)
+    clusters = [v for k, v in sorted(by_name.items()) if len(v) >= 2]
+    if clusters and rng.random() < 0.6:
+        cl = rng.choice(clusters)
+        o = rng.randrange(4)
+        focus = [(i, o) for i in rng.sample(cl, min(len(cl), rng.randint(2, 3)))] + focus
     if with_imports:
         imps = [i for i, s in enumerate(pool) if "import " in s]
         focus += [(rng.choice(imps), rng.randrange(2)) for _ in range(2)]
